@@ -1328,7 +1328,7 @@ class Table(Vector):
 			)
 		
 		# Prepare left-side uniqueness tracking if needed
-		check_left_unique = expect in ('one_to_one', 'many_to_one')
+		check_left_unique = expect in ('one_to_one', 'one_to_many')
 		if check_left_unique:
 			left_keys_seen = set()
 		
